@@ -18,10 +18,10 @@ class C15(PropBase):
         return core.make_fs_confdir(ws)
     def ops_alphabet(self, names):
         ops = []
-        for n in names:
+        for i, n in enumerate(names):
             s = dl.ALPHABET[n]
             ops.append(('w_create', ['', s, []]))
-            ops.append(('w_create', ['', s, [['a', '1']]]))
+            ops.append(('w_create', ['', s, [[KEYS[i % 2], '1']]]))      # creation data under another key than the neighbour's
             ops.append(('w_update', ['', s, [['a', '2']]]))
             ops.append(('w_update', ['', s, [['b', 'x y']]]))
             ops.append(('w_set', ['', s, 'c', '']))
@@ -34,7 +34,7 @@ class C15(PropBase):
         for op, args in ops:
             out.append(Case(op, args, 'history', {'h': hid}))
         # observe everything at the end
-        for n in ['F1', 'F2', 'F3', 'D1', 'D2', 'N1']:
+        for n in ['F1', 'F2', 'F3', 'D1', 'D2', 'N1', 'A1', 'D3', 'G1', 'G2']:
             s = dl.ALPHABET[n]
             out.append(Case('get_data_paths', ['', ['s', s], [], 'str'], 'final', {'h': hid, 'sid': s}))
             out.append(Case('get_data_paths_new', ['', ['s', s], [], 'str'], 'final', {'h': hid, 'sid': s}))
@@ -43,6 +43,8 @@ class C15(PropBase):
         out.append(Case('find_paths', ['', 'hamlet/a/char/x/model/*'], 'final', {'h': hid}))
         out.append(Case('find_paths', ['server', 'hamlet/a/char/x/model/*'], 'final', {'h': hid}))
         out.append(Case('find_all', ['hamlet/a/char/x/**/ma,mb'], 'final', {'h': hid}))
+        out.append(Case('find_paths', ['', 'hamlet/a/char/*'], 'final', {'h': hid, 'level': 4}))
+        out.append(Case('find_all', ['hamlet/a/*/*'], 'final', {'h': hid, 'level': 4}))
         out.append(Case('children', [['s', dl.ALPHABET['D2']]], 'final', {'h': hid}))
         out.append(Case('children', [['s', dl.ALPHABET['S2']]], 'final', {'h': hid, 'leaf': True}))
         out.append(Case('fs_dump', [], 'dump', {'h': hid}))
@@ -50,6 +52,9 @@ class C15(PropBase):
     def cases(self, rng, ctx, tier):
         self._roots = dl.roots_of(ctx)
         out = []
+        # the path of every Sid of the alphabet (entities whose paths differ only by the file extension share their data)
+        for n, s in sorted(dl.ALPHABET.items()):
+            out.append(Case('path', [['s', s], '', 'pos'], 'paths', {'sid': s}))
         hid = 0
         small = self.ops_alphabet(['F1', 'F2', 'D1'])
         depth = 2 if tier == 'quick' else 3
@@ -81,6 +86,16 @@ class C15(PropBase):
     def oracle_bulk(self, cases, impl_out, ctx):
         """direct statement of the property on the implementation's observations, per history"""
         fails = []
+        # sharing classes, from the property: same path up to the file extension (pathlib suffix of the last component)
+        import posixpath
+        stem = {}
+        for c, o in zip(cases, impl_out):
+            if c.stream == 'paths' and o[0] == 'ok' and o[1]:
+                d_, name = posixpath.split(o[1][0])
+                suf = dl.pure_suffix(name)
+                stem[c.meta['sid']] = d_ + '/' + (name[:-len(suf)] if suf else name)
+        def share_of(s_):
+            return [x for x in stem if stem[x] == stem.get(s_)] if s_ in stem else [s_]
         byh = {}
         for c, o in zip(cases, impl_out):
             byh.setdefault(c.meta.get('h'), []).append((c, o))
@@ -135,7 +150,7 @@ class C15(PropBase):
                     s = c.meta['sid']
                     rec = dict((k, v[0] if v else None) for k, v in o[1])
                     exp = {}
-                    share = {F1: [F1, F2], F2: [F1, F2]}.get(s, [s])
+                    share = share_of(s)
                     # overlay, in call order, of everything written to the sidecar class of s
                     for cc, oo in lst:
                         if cc.stream == 'history' and cc.op in ('w_create', 'w_update') and oo[0] == 'ok' and cc.args[1] in share:
@@ -147,6 +162,12 @@ class C15(PropBase):
                     has_path = s not in (dl.ALPHABET['N1'], dl.ALPHABET['U1'])
                     if has_path and got != exp:
                         fails.append((c, o, 'data read for %r is %r, the writes overlay to %r' % (s, got, exp))); break
+                elif c.op in ('find_paths', 'find_all') and c.meta.get('level'):
+                    # an entity exists exactly from the moment it or a descendant was created
+                    exp = sorted(set('/'.join(x.split('/')[:c.meta['level']]) for x in created if len(x.split('/')) >= c.meta['level'] and x.startswith('hamlet/a/')
+                                     and (c.op == 'find_all' or x.startswith('hamlet/a/char/'))))
+                    if sorted(o[1]) != exp:
+                        fails.append((c, o, '%s(%r) gives %r after creating %r' % (c.op, c.args[-1], sorted(o[1]), sorted(created)))); break
                 elif c.op == 'sid_exists':
                     s = c.meta['sid']
                     if s in (dl.ALPHABET['N1'],):
